@@ -147,7 +147,10 @@ func UnTarIndex(ctx context.Context, fs FilesystemWriter, index Index, s Store, 
 					return err
 				}
 			case <-ctx.Done():
-				break loop
+				// Not all chunks were written, UnTar must not take the end
+				// of the pipe for the end of the archive
+				w.CloseWithError(Interrupted{})
+				return Interrupted{}
 			}
 		}
 		return nil
